@@ -734,21 +734,26 @@ def fix_keeps(sc):
     # resolve ("last",) by a dry run on the real code
     real = Real(sc)
     last = None
+    cut = None
     try:
-        for o in sc["ops"]:
+        for idx, o in enumerate(sc["ops"]):
             if o["k"] == "keep" and o["p"] == ("last",):
                 o["p"] = last if last is not None else 0
+            if o["k"] == "keep" and o["p"] not in real.reserved:
+                cut = idx + 1  # environment hypothesis violated: nothing is compared after this response
             try:
                 r = real.do(o)
             except Skip:
+                cut = idx
+                break
+            if cut is not None:
                 break
             if o["k"] == "reserve":
                 last = r["q"]
     finally:
         real.close()
-    for o in sc["ops"]:
-        if o["k"] == "keep" and o["p"] == ("last",):
-            o["p"] = 0
+    if cut is not None:
+        sc["ops"] = sc["ops"][:cut]
     return sc
 
 
